@@ -93,7 +93,8 @@ class Check(PropCheck):
         for tag, prop, origin in pairs(tier):
             attr = S.html_name(prop)
             vals = corpus(tag, prop, tier, origin)
-            base = {'tag': tag, 'prop': prop, 'attr': attr, 'ctx': 0, 'via': 'ctor', 'init': ['absent'], 'assign': None}
+            base = {'tag': tag, 'prop': prop, 'attr': attr, 'ctx': 0, 'via': 'ctor', 'init': ['absent'], 'assign': None,
+                    'pre': False, 'upper': False}
 
             def mk(**kw):
                 d = dict(base)
@@ -115,6 +116,19 @@ class Check(PropCheck):
                 yield mk(init=['text', 'x'], assign=canon_value(v))
             yield mk(init=['bare'], assign=['b', False])
             yield mk(ctx=1, via='html', init=['text', 'on'], assign=['s', 'off'])
+            # text stored through em.setAttribute(name, text)
+            for s in vals:
+                yield mk(init=['text', s], via='setattr')
+            # an unrelated attribute comes first; upper-case spellings of the element type and of the attribute
+            for s in ['', '5', 'false', 'Off']:
+                yield mk(init=['text', s], pre=True)
+                yield mk(init=['text', s], pre=True, via='html', assign=['s', '7'])
+                yield mk(init=['text', s], upper=True)
+                yield mk(init=['text', s], upper=True, via='html', ctx=1)
+                yield mk(init=['text', s], upper=True, via='setattr', assign=['b', False])
+            yield mk(pre=True, assign=['s', 'x'])
+            yield mk(upper=True)
+            yield mk(upper=True, assign=['s', '-2'])
 
     def nontrivial(self, d):
         return d['init'][0] != 'absent' or d['assign'] is not None
@@ -123,6 +137,10 @@ class Check(PropCheck):
         linked = d['prop'] in props_of(d['tag'])
         k = S.rule(d['tag'], d['prop'])[0] if linked else 'unlinked'
         fs = ['kind:' + k, 'init:' + d['init'][0], 'via:' + d['via'], 'ctx:%d' % d['ctx']]
+        if d.get('pre'):
+            fs.append('other-attribute-first')
+        if d.get('upper'):
+            fs.append('upper-case-names')
         if d['assign'] is not None:
             fs.append('assign:' + d['assign'][0])
         if d['init'][0] == 'text' and k in S.NUMERIC_KINDS:
@@ -133,8 +151,12 @@ class Check(PropCheck):
     def shrink(self, d):
         if d['ctx']:
             yield dict(d, ctx=0)
-        if d['via'] == 'html':
+        if d['via'] != 'ctor':
             yield dict(d, via='ctor')
+        if d.get('pre'):
+            yield dict(d, pre=False)
+        if d.get('upper'):
+            yield dict(d, upper=False)
         if d['assign'] is not None and d['init'][0] != 'absent':
             yield dict(d, init=['absent'])
         if d['init'][0] == 'text' and len(d['init'][1]) > 1:
@@ -172,21 +194,29 @@ class Check(PropCheck):
         else:
             asg = ['n']
         anc = [enc('div'), enc('form')] if d['ctx'] else []
-        return sx(mode, enc(d['tag']), enc(d['prop']), enc(d['attr']), anc, i, asg)
+        up = d.get('upper')
+        return sx(mode, enc(d['tag'].upper() if up else d['tag']), enc(d['prop']), enc(d['attr']),
+                  enc(d['attr'].upper() if up else d['attr']), anc, bool(d.get('pre')), d['via'], i, asg)
 
     # ---- library side --------------------------------------------------------------------------
     def build(self, d):
         import AdvancedHTMLParser as AHP
         from AdvancedHTMLParser.constants import IMPLICIT_SELF_CLOSING_TAGS
+        up = d.get('upper')
         tag, attr, init = d['tag'], d['attr'], d['init']
+        ctag = tag.upper() if up else tag
+        iattr = attr.upper() if up else attr
+        pre = [('data-k', 'v')] if d.get('pre') else []
         if d['via'] == 'html':
             if init[0] == 'absent':
                 a = ''
             elif init[0] == 'bare':
-                a = ' ' + attr
+                a = ' ' + iattr
             else:
-                a = ' %s="%s"' % (attr, init[1].replace('&', '&amp;').replace('"', '&quot;'))
-            inner = '<%s%s>' % (tag, a) + ('' if tag in IMPLICIT_SELF_CLOSING_TAGS else '</%s>' % tag)
+                a = ' %s="%s"' % (iattr, init[1].replace('&', '&amp;').replace('"', '&quot;'))
+            if pre:
+                a = ' data-k="v"' + a
+            inner = '<%s%s>' % (ctag, a) + ('' if tag in IMPLICIT_SELF_CLOSING_TAGS else '</%s>' % ctag)
             doc = '<form><div>%s</div></form>' % inner if d['ctx'] else inner
             p = AHP.AdvancedHTMLParser()
             p.parseStr(doc)
@@ -195,8 +225,13 @@ class Check(PropCheck):
                 e = e.children[0].children[0]
             self._keep = p
             return e
-        attrs = [] if init[0] == 'absent' else [(attr, None if init[0] == 'bare' else init[1])]
-        e = AHP.AdvancedTag(tag, attrs)
+        attrs = [] if init[0] == 'absent' else [(iattr, None if init[0] == 'bare' else init[1])]
+        if d['via'] == 'setattr':
+            e = AHP.AdvancedTag(ctag, pre)
+            for k, v in attrs:
+                e.setAttribute(k, v)
+        else:
+            e = AHP.AdvancedTag(ctag, pre + attrs)
         if d['ctx']:
             f = AHP.AdvancedTag('form')
             dv = AHP.AdvancedTag('div')
@@ -276,8 +311,13 @@ class Check(PropCheck):
             elif want[0] == 'store':
                 state = ('text', want[1])
             # the attribute is stored under its HTML name, and nothing else appears
-            names = [k for k, _ in e.getAttributesList()]
+            alist = [(k, x) for k, x in e.getAttributesList() if not (d.get('pre') and k == 'data-k')]
+            if d.get('pre') and e.getAttributesList()[:1] != [('data-k', 'v')]:
+                return ('stored-name', 'after %s.%s = %r the unrelated attribute data-k="v" is gone or moved: %r' % (tag, prop, v, e.getAttributesList()))
+            names = [k for k, _ in alist]
             stored = e.getAttribute(attr)
+            if names == [attr] and state[0] == 'text' and kind != 'className' and alist[0][1] != state[1]:
+                return ('stored-html', 'after %s.%s = %r the attribute list holds %s=%r, expected %r' % (tag, prop, v, attr, alist[0][1], state[1]))
             if state[0] == 'text' and not (kind == 'className' and state[1] == ''):
                 if names != [attr]:
                     return ('stored-name', 'after %s.%s = %r the attributes are %r, expected [%r]' % (tag, prop, v, names, attr))
